@@ -1,6 +1,7 @@
 import Jwt.Lemmas.Verify
 import Jwt.Lemmas.Json
 import Jwt.Checker
+import Jwt.Generated.ClaimRules
 /-!
 # C04 — claim checks (exp, nbf, iss, sub, aud) are enforced exactly as configured
 
@@ -12,6 +13,23 @@ namespace Jwt.Props.C04
 open Jwt Jwt.Generated
 
 /-! ### the individual checks -/
+
+/-- **The comparisons are the source's** (generated from `__verify_claims` of `jwt-verify.c`, which reads the
+clock once): with the check on and an integer claim present, the model's `exp` check fails exactly when the
+translated test `jval.int_val <= now - leeway` holds, and the `nbf` check exactly when `jval.int_val > now +
+leeway` holds; the string claims checked are `iss`, `sub`, `aud`. A `<=` turned `<`, a sign of the leeway
+flipped, a claim dropped from the list fails here at build time. -/
+theorem C04_comparisons_are_source (c : ClaimCfg) (claims : Json) (now v : Int) :
+    (c.mask.exp = true → claims.objGet N.exp = some (.int v) →
+      (expFails c claims now = true ↔ Generated.srcExpFails v now c.expLeeway)) ∧
+    (c.mask.nbf = true → claims.objGet N.nbf = some (.int v) →
+      (nbfFails c claims now = true ↔ Generated.srcNbfFails v now c.nbfLeeway)) ∧
+    Generated.srcStrClaims = [("ISS", "iss"), ("SUB", "sub"), ("AUD", "aud")] := by
+  refine ⟨?_, ?_, by decide⟩
+  · intro hon hg
+    simp [expFails, getInt, hon, hg, Generated.srcExpFails]
+  · intro hon hg
+    simp [nbfFails, getInt, hon, hg, Generated.srcNbfFails]
 
 /-- expiry on, `exp` an integer: passes exactly while `exp > now − leeway` -/
 theorem C04_exp (c : ClaimCfg) (claims : Json) (now e : Int) (hon : c.mask.exp = true)
